@@ -1,1 +1,4 @@
+pub mod c15;
 pub mod c17;
+pub mod c18;
+pub mod c19;
